@@ -184,6 +184,9 @@ class C12(Prop):
         'adjacent regions of the *same* dollar kind ($a$$b$) are not in the '
         'statement ("different kinds") and are not generated',
     )
+    probes = ('tok', 'reach')
+    probed_every = 10
+    reach_required = ['tokens.tokenize_math_sym_switch', 'tokens.tokenize_math_asym_switch', 'tokens.tokenize_escaped_symbols', 'reader.read_math_env', 'tokens.tokenize_punctuation_command_name']
     min_nontrivial = 2000
     budget_s = {'quick': 200, 'thorough': 2400}
     exhaustive = {'quick': 'every sizing prefix x delimiter x 4 delimiter pairs; '
